@@ -29,6 +29,7 @@ type FnIndex struct {
 	virtSlices map[string]ssa.Value
 	allocNames map[*ssa.Alloc]string
 	flagCache  map[*ssa.Function][]*ssa.Alloc
+	guardCache map[*ssa.BasicBlock][]Guard
 	// fields of local struct variables as cells of their own (fieldCell)
 	fieldCells   map[*ssa.Alloc]map[int]*ssa.Alloc
 	escapedCells map[*ssa.Alloc]bool
@@ -1020,6 +1021,80 @@ func (x *FnIndex) edgeDominated(from *ssa.BasicBlock, succ int) map[*ssa.BasicBl
 // GuardsOf lists the branch outcomes that hold whenever block b runs.
 // (Unreachable blocks have every guard; callers only ask about live code.)
 func (x *FnIndex) GuardsOf(b *ssa.BasicBlock) []Guard {
+	if g, ok := x.guardCache[b]; ok {
+		return g
+	}
+	out := x.domGuards(b)
+	// what holds on every way in: each predecessor contributes what dominates it plus the
+	// outcome of its own test on the edge to b; a fact all of them share (the same condition,
+	// written the same way, with the same outcome) holds in b although no single test
+	// dominates it (`if gw.addition` tested once per earlier branch)
+	if len(b.Preds) >= 2 {
+		type kf struct {
+			g Guard
+			n int
+		}
+		facts := map[string]*kf{}
+		var order []string
+		for pi, p := range b.Preds {
+			seen := map[string]bool{}
+			add := func(g Guard) {
+				k := fmt.Sprintf("%v|%s", g.Pol, x.Describe(g.Cond))
+				if seen[k] {
+					return
+				}
+				seen[k] = true
+				if f, ok := facts[k]; ok {
+					if f.n == pi {
+						f.n++
+					}
+				} else if pi == 0 {
+					facts[k] = &kf{g, 1}
+					order = append(order, k)
+				}
+			}
+			for _, g := range x.domGuards(p) {
+				add(g)
+			}
+			if len(p.Instrs) > 0 && len(p.Succs) == 2 && p.Succs[0] != p.Succs[1] {
+				if iff, ok := p.Instrs[len(p.Instrs)-1].(*ssa.If); ok {
+					cond, flip := iff.Cond, false
+					for i := 0; i < 4; i++ {
+						u, ok := x.Origin(cond).(*ssa.UnOp)
+						if !ok || u.Op != token.NOT {
+							break
+						}
+						cond, flip = u.X, !flip
+					}
+					cond = x.Origin(cond)
+					pol := p.Succs[0] == b
+					for _, f := range x.implied(cond, pol != flip, 0) {
+						add(Guard{iff, f.v, f.pol})
+					}
+				}
+			}
+		}
+		have := map[string]bool{}
+		for _, g := range out {
+			have[fmt.Sprintf("%v|%s", g.Pol, x.Describe(g.Cond))] = true
+		}
+		for _, k := range order {
+			if f := facts[k]; f.n == len(b.Preds) && !have[k] {
+				out = append(out, f.g)
+			}
+		}
+	}
+	if x.ready {
+		if x.guardCache == nil {
+			x.guardCache = map[*ssa.BasicBlock][]Guard{}
+		}
+		x.guardCache[b] = out
+	}
+	return out
+}
+
+// domGuards: the branch outcomes that dominate b.
+func (x *FnIndex) domGuards(b *ssa.BasicBlock) []Guard {
 	var out []Guard
 	fn := b.Parent()
 	for _, d := range fn.Blocks {
